@@ -371,6 +371,44 @@ def spherical_roundtrip(report, tier):
     report.extra['roundtrip_paths'] = paths
 
 
+def grid_unchanged_by_consumers(report):
+    """The grid object keeps describing the grid after other components used it: every array attribute of the
+    FiniteDifference object is bit-identical after the AurelCore requests that read the coordinates (extraction-sphere
+    centre != 0, both tetrads).  Concrete executions on a small grid (the symbolic layers above decide the values at
+    construction; this layer decides that nothing shifts them afterwards)."""
+    import contextlib
+    import io
+    from aurel.finitedifference import FiniteDifference
+    from aurel.core import AurelCore
+    p = {'xmin': -1.0, 'ymin': -1.1, 'zmin': -0.9, 'dx': 0.25, 'dy': 0.3, 'dz': 0.2, 'Nx': 9, 'Ny': 8, 'Nz': 10}
+    n = 0
+    for center in ((0.0, 0.0, 0.0), (0.2, -0.1, 0.15)):
+        for tetrad in ('quasi-Kinnersley', 'fluid'):
+            fd = FiniteDifference(p, fd_order=4, verbose=False)
+            snap = {k: np.copy(v) for k, v in vars(fd).items() if isinstance(v, np.ndarray)}
+            with contextlib.redirect_stdout(io.StringIO()):
+                rel = AurelCore(fd, verbose=False, center=center, tetrad=tetrad, lmax=2, extract_radii=[0.4])
+                for key in ('null_ray_exp_out', 'null_ray_exp_in', 'Weyl_Psi', 'Psi4_lm', 'fluxup3_n'):
+                    n += 1
+                    try:
+                        with np.errstate(all='ignore'):
+                            rel[key]
+                    except Exception as e:  # noqa
+                        report.notes.append(f"grid-consumer request {key} (center={center}, tetrad={tetrad}) raised {e!r}"[:200])
+                    for k, v in snap.items():
+                        now = getattr(fd, k)
+                        if not (isinstance(now, np.ndarray) and now.shape == v.shape and np.array_equal(now, v, equal_nan=True)):
+                            dev = float(np.max(np.abs(now - v))) if isinstance(now, np.ndarray) and now.shape == v.shape else float('nan')
+                            name = f"fd.{k} changed by rel['{key}']"
+                            report.record(name, 'sat', group='grid arrays unchanged by consumers (concrete executions)', kind='concrete')
+                            report.violation(f'grid array fd.{k} modified', f"after AurelCore(center={center}, tetrad={tetrad!r})['{key}'] "
+                                             f"fd.{k} differs from its value at construction by {dev:.3g}",
+                                             report.write_replay(f'grid_modified_{k}', dict(center=list(center), tetrad=tetrad, key=key, attr=k, dev=dev)))
+                            snap[k] = np.copy(now)
+    report.record(f'{n} AurelCore requests reading the grid (centre zero / non-zero, both tetrads): every array attribute of fd unchanged',
+                  'holds', group='grid arrays unchanged by consumers (concrete executions)', kind='concrete', trivial=True)
+
+
 def main(report, tier, seed, workers, calibrate=False):
     report.bounds = dict(N='1,2,3,10 (quick); 1..12,16,32,64,100,128 (thorough)', min='[-1e4, 1e4]', spacing='[1e-6, 1e3]',
                          trimming='ranks 1-3, fd_order 2-8 and the fall-back for 3, 7, 10, symbolic lengths >= 2k+1',
@@ -384,6 +422,7 @@ def main(report, tier, seed, workers, calibrate=False):
     with FuncTrace() as ft:
         fp_queries(report, tier)
         structural(report)
+        grid_unchanged_by_consumers(report)
         with use_ctx(Ctx(pre=[], fork=True)):
             trimming(report, tier)
         spherical_roundtrip(report, tier)
